@@ -16,7 +16,7 @@ RULE = sqlmon.RULE_HISTORIES + ' Job DAGs: in-update and cross-update parents, r
 ASSUMPTIONS = sqlmon.COMMON_ASSUMPTIONS
 SHARDS = {'quick': 4, 'thorough': 16}
 TIMEOUT = {'quick': 900, 'thorough': 3600}
-FLOORS = {'scripted_children_checked': 40, 'scripted_scenarios': 10, 'scripted_live_parent_commits': 10, 'jobs_with_parents_observed_live': 100, 'children_cancelled_by_failed_parent': 10, 'histories_free_of_known_patterns': 50}
+FLOORS = {'scripted_children_checked': 40, 'scripted_scenarios': 10, 'scripted_live_parent_commits': 10, 'scripted_mixed_parent_completions': 3, 'jobs_with_parents_observed_live': 100, 'children_cancelled_by_failed_parent': 10, 'histories_free_of_known_patterns': 50}
 
 
 class Deps(Monitor):
@@ -26,6 +26,12 @@ class Deps(Monitor):
     def on_commit(self, v):
         for key, what, wit in oracles.c05(v):
             k = tuple(wit['job'])
+            if wit.get('uncommitted'):
+                # that an uncommitted job is readied at all is the recorded C41 finding; that it is readied while a parent is
+                # still live is explained only if that *parent* is one of the jobs the recorded defects touched
+                self.r.ctx.count('uncommitted_non_pending_jobs_with_parents_checked')
+                self.r.violation(sqlmon.explain(self.p, key, [('job', (k[0], pid)) for pid in wit['parents']]), what, wit)
+                continue
             self.r.violation(sqlmon.explain(self.p, key, [('job', k), ('batch', k[0])]), what, wit)
 
     def on_op(self, rec, v):
@@ -40,7 +46,10 @@ class Deps(Monitor):
 OUTCOMES = ['Success', 'Failed', 'Error', 'Cancelled-by-failed-grandparent', 'Cancelled-by-group-cancel',
             # the parent is still live (Ready / Creating on a job-private VM / Running) when the children's update is committed:
             # the children must stay Pending (decided by the after-every-commit oracle)
-            'Live-at-commit-Ready', 'Live-at-commit-Creating', 'Live-at-commit-Running']
+            'Live-at-commit-Ready', 'Live-at-commit-Creating', 'Live-at-commit-Running',
+            # a job of a later update has one parent in its own update (still Pending) and one in an earlier update that finishes
+            # while the later update is not yet committed
+            'Mixed-parents-earlier-parent-finishes-before-commit']
 
 
 async def scripted(runner, w, fz, rng):
@@ -93,6 +102,19 @@ async def scripted(runner, w, fz, rng):
                 st = {'batch_id': bid, 'job_id': jid, 'attempt_id': a['attempt_id'], 'job_group_id': a.get('job_group_id', 0), 'state': state,
                       'start_time': now, 'end_time': now + 1, 'status': {}, 'resources': []}
                 await w.dm.job_complete(fz._worker_request(fz._instance_of(a), {'status': st}))
+    if outcome.startswith('Mixed-parents'):
+        u2, _, _ = await fe._create_batch_update(bid, 'c05s-2', 2, 0, user, w.db)
+        js = [spec(1), spec(2, in_update_parent_ids=[1], absolute_parent_ids=[2], always_run=rng.random() < 0.3)]
+        validate_and_clean_jobs(js)
+        await fe._create_jobs(ud, js, bid, u2, w.fe_app)
+        await run_job(1, 'succeeded')
+        await run_job(2, rng.choice(['succeeded', 'succeeded', 'failed']))  # the after-every-commit oracle judges job 4 here
+        from vf.world.oracles import View as _V
+        vv = _V(w.engine)
+        if vv.jobs[(bid, 2)]['state'] in ('Success', 'Failed') and vv.jobs[(bid, 3)]['state'] == 'Pending':
+            ctx.count('scripted_mixed_parent_completions')
+        await fe._commit_update(w.fe_app, bid, u2, user, w.db)
+        return
     if outcome.startswith('Live-at-commit'):
         await run_job(1, 'succeeded')
         if outcome.endswith('Creating'):
